@@ -132,6 +132,10 @@ pub fn execute(seed: u64, sc: &Scenario, stats: &mut Stats) -> Result<(), Violat
         local
     }));
     stats.evaluations += 1;
+    let pool_panics = crate::harness::POOL_TASK_PANICS.swap(0, std::sync::atomic::Ordering::Relaxed);
+    if pool_panics > 0 {
+        stats.probe("decoder_panicked_in_pool_task(ignored_for_C02)");
+    }
     match r {
         Ok(local) => {
             stats.steps += local.steps;
